@@ -894,6 +894,7 @@ static long run_one(int w, long k1, long k2)
 	sb_reset(&d2);
 	vf_dump(c.pre2, &d2, 0);
 	char *pre2_before = strdup(sb_str(&d2));
+	long viol_before = mc_violations();
 	vf_counters_reset();
 	vf_fail_plan(k1, k2);
 	mc_phase = W_->kind;
@@ -978,6 +979,31 @@ static long run_one(int w, long k1, long k2)
 		}
 	}
 	free(pre2_before);
+	/* the failure left everything as it was, so the same call - now with memory available - must
+	 * behave exactly like the fault-free run (hidden damage left behind by the failed attempt,
+	 * e.g. a capacity field updated before the failed growth, shows up here) */
+	if (st == R_FAIL && fired && !patch_failed_inplace && !patch_like_partial && baseline[w] && mc_violations() == viol_before &&
+	    strcmp(W_->kind, "format") != 0 /* that workload undoes its own set-up at the end */)
+	{
+		mc_phase = "retry";
+		sb_reset(&c.res);
+		int st2 = W_->op(&c);
+		if (st2 == R_OK && c.out && c.res.n == 0)
+			vf_dump(c.out, &c.res, DUMP_SER);
+		if (st2 != R_OK)
+		{
+			char sig[128];
+			snprintf(sig, sizeof sig, "%s:retry-after-clean-failure-fails", W_->kind);
+			mc_violation(sig, "after the clean failure the same call, with memory available, does not succeed");
+		}
+		else if (strcmp(baseline[w], sb_str(&c.res)))
+		{
+			char sig[128];
+			snprintf(sig, sizeof sig, "%s:retry-after-clean-failure-differs", W_->kind);
+			mc_violation(sig, "after the clean failure the same call gives %.200s; the fault-free run gives %.200s", sb_str(&c.res), baseline[w]);
+		}
+		mc_phase = "after-op";
+	}
 	patch_failed_inplace = 0;
 	patch_like_partial = 0;
 	if (c.val && c.val_owned)
